@@ -1,3 +1,55 @@
+/-
+  C01 — Instant → civil conversion follows the zone's data (table level).
+  What is proved here: for every table with the facts Load establishes (`TableWF`, `CivilCols`),
+  every instant, every hint: lookup reports the type of the latest table entry at or before t (the
+  default type before the first), and the civil second is the UTC civil second of t shifted by that
+  offset; beyond an extended table the answer is the table's answer 400·s years earlier moved
+  forward by exactly 400·s years.  NOT yet proved (see DESIGN.md): that `load` establishes
+  `CivilCols` and that the rule-generated part of the table equals the POSIX rule evaluated on the
+  calendar (`extend_spec`) — those are tied to the code by the correspondence and the independent
+  Python reader/evaluator only.
+-/
 import Cctz.Model.Tz
+import Cctz.Spec.TableSem
+import Cctz.Proofs.TableLookup
+
 namespace Cctz.C01
+open Cctz Cctz.Tz Cctz.Spec
+
+/-- lookup(t) inside the table (or beyond a table that is not extended) -/
+def breakTime_table_statement : Prop :=
+  ∀ (z : Zone) (h : Nat) (t : Int), TableWF z → CivilCols z →
+    (z.extended = false ∨ t < timeOf z (z.transitions.size - 1)) →
+    let a := (breakTime z h t).val.1
+    Valid a.cs ∧ secNum a.cs = t + offAt z t ∧ a.offset = offAt z t ∧
+    a.isDst = (typ z (typeAt z t)).isDst ∧
+    a.abbr = abbrAt z.abbreviations (typ z (typeAt z t)).abbrIndex
+
+/-- lookup(t) beyond an extended table: `s = ⌊(t - last)/k400⌋ + 1` whole 400-year cycles are
+removed, the table is consulted, and exactly `s · 146097` days are added back -/
+def breakTime_shift_statement : Prop :=
+  ∀ (z : Zone) (h : Nat) (t : Int), TableWF z → CivilCols z → z.extended = true →
+    timeOf z (z.transitions.size - 1) ≤ t →
+    let s := (t - timeOf z (z.transitions.size - 1)) / 12622780800 + 1
+    let t' := t - s * 12622780800
+    let a := (breakTime z h t).val.1
+    t' < timeOf z (z.transitions.size - 1) ∧ timeOf z (z.transitions.size - 1) - 12622780800 ≤ t' ∧
+    Valid a.cs ∧ secNum a.cs = t + offAt z t' ∧ a.offset = offAt z t' ∧
+    a.isDst = (typ z (typeAt z t')).isDst ∧ a.abbr = abbrAt z.abbreviations (typ z (typeAt z t')).abbrIndex
+
+/-- the built-in fixed-offset table (C15): every type is the one fixed type, so lookup reports
+exactly `off`, no DST and the numeric abbreviation at every instant, for every hint -/
+def fixed_lookup_statement : Prop :=
+  ∀ (off : Int) (h : Nat) (t : Int), -86400 ≤ off → off ≤ 86400 →
+    let z := (resetToBuiltinUTC off).val
+    let a := (breakTime z h t).val.1
+    Valid a.cs ∧ secNum a.cs = t + off ∧ a.offset = off ∧ a.isDst = false ∧
+    a.abbr = Bytes.cstr (Fixed.toAbbr off).val
+
+/-- … and that table has the facts the theorems above assume -/
+def fixed_table_statement : Prop :=
+  ∀ off : Int, -86400 ≤ off → off ≤ 86400 →
+    TableWF (resetToBuiltinUTC off).val ∧ CivilCols (resetToBuiltinUTC off).val ∧
+    (resetToBuiltinUTC off).val.extended = false
+
 end Cctz.C01
